@@ -165,6 +165,11 @@ def run(ctx):
     recs = scenarios.collect(ctx, algrun.ALGOS, n, small=ctx.quick)
     brecs = budget_exact_recs(ctx)
     recs += brecs
+    import random
+    prng = random.Random(977 + ctx.seed)
+    for a in ("PaVeBa", "PaVeBaGP-DE", "PaVeBaPartialGP-ell", "VOGP"):
+        for _ in range(2 if ctx.quick else 10):
+            recs.append(scenarios.run_spec(scenarios.later_facet_probe(prng, a)))
     viol, stats = [], {}
     for r in recs:
         check_record(r, viol)
